@@ -19,6 +19,11 @@ pub struct WriterCase {
     pub wchunk: Chunk,
     pub rchunk: Chunk,
     pub sink: Chunk,
+    /// C06 only: before reading back, rewrite every blob section header to the convention of
+    /// older versions of this crate (section length = data length, which the reader accepts on
+    /// purpose) and re-seal the pages
+    #[serde(default)]
+    pub legacy_blob_headers: bool,
 }
 
 pub struct Written {
@@ -330,3 +335,35 @@ pub fn shrink_writer_case(case: &WriterCase) -> Vec<WriterCase> {
 }
 
 pub const KNOBS: [usize; 7] = [1, 2, 3, 7, 8, 9, 50];
+
+/// Rewrite the section-length field of every blob section (standalone and image/mask blobs) to
+/// the data length, the convention written by cry-inc/e57 up to 0.11.10, and re-seal.
+pub fn to_legacy_blob_headers(image: &[u8], blob_descs: &[(u64, u64)]) -> Option<Vec<u8>> {
+    let ctx = new_ctx(vec![]);
+    let d = SimDisk::new(&ctx, DEV_DISK3, image.to_vec(), &Chunk::Full);
+    let r = E57Reader::new(d).ok()?;
+    let mut all: Vec<(u64, u64)> = blob_descs.to_vec();
+    for img in r.images() {
+        let desc = img_desc_from_e57(&img);
+        for (b, m) in [desc.visual_blobs, desc.projection_blobs].into_iter().flatten() {
+            all.push((b.offset, b.length));
+            if let Some(m) = m {
+                all.push((m.offset, m.length));
+            }
+        }
+    }
+    let mut out = image.to_vec();
+    for (off, len) in all {
+        // the 8 length bytes start at logical offset + 8; translate each byte on its own
+        let logical = crate::refcodec::page::to_logical(off)?;
+        let bytes = len.to_le_bytes();
+        for (k, b) in bytes.iter().enumerate() {
+            let phys = crate::refcodec::page::to_phys(logical + 8 + k as u64) as usize;
+            if phys < out.len() {
+                out[phys] = *b;
+            }
+        }
+    }
+    crate::refcodec::page::reseal(&mut out);
+    Some(out)
+}
